@@ -236,7 +236,7 @@ def run(tier, seed, build):
                     fail("predicate" if bad else "disagreement", "domain-accepted:" + str(mm[1]),
                          "domain-level %r over domains %r is accepted and emits %r (model: %s)" % (c["dl"], c["doms"], r.get("struct"), mm[1]), c)
     return {"evaluations": len(cases), "distinct_nontrivial": len(nontrivial),
-            "rule": "60% random balanced multi-strand structures (0-4 strands, lengths 0-30) each spelled in HU (random run splitting, U0/H0, paren merging), run-length and plain notation with random spacing, through HU2dotParen / extended2dotParen / dotParen2HU / parse_structure_statement; 15% corrupted (bracket inserted/deleted); 25% domain-level structures over random domain lengths (40% with unequal paired domains, 10% wrong size) through compiler.compiler. Non-trivial = has a helix, is unbalanced, or is a domain-level case",
+            "rule": "60% random balanced multi-strand structures (0-4 strands, lengths 0-30) each spelled in HU (random run splitting, U0/H0, paren merging), run-length and plain notation with random spacing, through HU2dotParen / extended2dotParen / dotParen2HU / parse_structure_statement; 15% corrupted (bracket inserted/deleted); 25% domain-level structures over random domain lengths (40% with unequal paired domains, 10% wrong size) through compiler.compiler. Non-trivial = has a helix, is unbalanced, or is a domain-level case; every HU spelling once more with blanks inside its terms",
             "samples": [{k: v for k, v in c.items() if k not in ("hu", "ext", "plain")} for c in cases[:4]],
             "distribution": dist, "failures": failures}
 
